@@ -221,6 +221,44 @@ func (g *gstate) loadForkPattern() {
 	fmt.Println("dump")
 }
 
+// loadNestedPattern: side branches nested three deep (best <- A <- B <- C) of which only the innermost reaches the
+// load depth: Load has to keep A and B because C is built on them (transitively); then C and B are extended.
+func (g *gstate) loadNestedPattern() {
+	if g.forks > 5 || !g.byID[g.focus].alive || g.maxd < 5 {
+		return
+	}
+	tip := g.focus
+	for j := 0; j < 6; j++ { // make sure the chain is long enough
+		n := g.defBits(tip, 0x1d00ffff)
+		g.sub(n.id)
+		tip = n.id
+	}
+	grow := func(from, k int) int {
+		p := from
+		for j := 0; j < k; j++ {
+			n := g.defBits(p, 0x1d00ffff)
+			g.sub(n.id)
+			p = n.id
+		}
+		return p
+	}
+	a1 := grow(g.ancestor(tip, 5), 1) // A: heights T-4, T-3
+	grow(a1, 1)
+	b1 := grow(a1, 1) // B forks off A's first header: T-3, T-2
+	b2 := grow(b1, 1)
+	c := grow(b1, 2) // C forks off B's first header: T-2, T-1
+	g.focus = tip
+	fmt.Println("dump")
+	fmt.Println("save")
+	g.snapshot()
+	fmt.Printf("loadd d=%d\n", 1)
+	g.restore()
+	fmt.Println("dump")
+	grow(c, 1)
+	grow(b2, 1)
+	fmt.Println("dump")
+}
+
 func (g *gstate) def(prev int) *gnode {
 	id := g.next
 	g.next++
@@ -619,7 +657,11 @@ func gen(seed uint64, scripts int, tier string, profile string) {
 			case 16:
 				g.forkFirstPattern()
 			case 17:
-				g.loadForkPattern()
+				if g.r.Intn(2) == 0 {
+					g.loadForkPattern()
+				} else {
+					g.loadNestedPattern()
+				}
 			}
 		}
 		fmt.Println("dump")
